@@ -29,7 +29,7 @@ import (
 	"github.com/CrowdStrike/csproto/lazyproto"
 	"google.golang.org/protobuf/encoding/protowire"
 
-	"verif/harness/internal/tr"
+	"verif/harness/tr"
 )
 
 // DefJ is the definition as data, shared with the TLA+ side.
@@ -358,9 +358,10 @@ type handle struct {
 }
 
 type savedVal struct {
-	bytes  [][]byte // live slices handed out by the library
-	strs   []string
-	copies [][]byte // contents at hand-out time
+	acc  string
+	live interface{} // the very value the library handed out (slices keep aliasing whatever they alias)
+	val  []int       // its rendering at hand-out time
+	vals [][]int
 }
 
 var scalarAccs = []string{"Bool", "String", "Bytes", "UInt32", "Int32", "SInt32", "UInt64", "Int64", "SInt64", "Fixed32", "Fixed64", "Float32", "Float64"}
@@ -419,6 +420,12 @@ func callMethod(recv interface{}, acc string, args ...interface{}) (interface{},
 // fill converts an accessor result to the trace representation and collects the live slices/strings
 // handed out, so that their stability can be checked later.
 func fill(acc string, v interface{}, e *LEv) (sv savedVal) {
+	defer func() {
+		sv = savedVal{acc: acc, live: v, val: append([]int{}, e.Val...)}
+		for _, x := range e.Vals {
+			sv.vals = append(sv.vals, append([]int{}, x...))
+		}
+	}()
 	fixed := strings.HasPrefix(acc, "Fixed") || strings.HasPrefix(acc, "Float")
 	switch x := v.(type) {
 	case bool:
@@ -429,10 +436,8 @@ func fill(acc string, v interface{}, e *LEv) (sv savedVal) {
 		}
 	case string:
 		e.Val = tr.Bytes([]byte(x))
-		sv.strs = append(sv.strs, x)
 	case []byte:
 		e.Val = tr.Bytes(x)
-		sv.bytes = append(sv.bytes, x)
 	case uint32:
 		if fixed {
 			e.Val = tr.LE32(x)
@@ -464,12 +469,10 @@ func fill(acc string, v interface{}, e *LEv) (sv savedVal) {
 	case []string:
 		for _, y := range x {
 			e.Vals = append(e.Vals, tr.Bytes([]byte(y)))
-			sv.strs = append(sv.strs, y)
 		}
 	case [][]byte:
 		for _, y := range x {
 			e.Vals = append(e.Vals, tr.Bytes(y))
-			sv.bytes = append(sv.bytes, y)
 		}
 	case []uint32:
 		for _, y := range x {
@@ -506,14 +509,40 @@ func fill(acc string, v interface{}, e *LEv) (sv savedVal) {
 	default:
 		panic(fmt.Sprintf("harness: unexpected accessor result %T", v))
 	}
-	for _, b := range sv.bytes {
-		sv.copies = append(sv.copies, append([]byte{}, b...))
-	}
-	for _, s := range sv.strs {
-		sv.copies = append(sv.copies, []byte(strings.Clone(s)))
-	}
 	return sv
 }
+
+func sameInts(a, b []int) bool {
+	if len(a) != len(b) {
+		return false
+	}
+	for i := range a {
+		if a[i] != b[i] {
+			return false
+		}
+	}
+	return true
+}
+
+// stillSame re-renders the live value and compares it with the rendering taken at hand-out time
+func (sv *savedVal) stillSame() bool {
+	var e LEv
+	func() {
+		defer func() { _ = recover() }()
+		fillNoSave(sv.acc, sv.live, &e)
+	}()
+	if !sameInts(e.Val, sv.val) || len(e.Vals) != len(sv.vals) {
+		return false
+	}
+	for i := range e.Vals {
+		if !sameInts(e.Vals[i], sv.vals[i]) {
+			return false
+		}
+	}
+	return true
+}
+
+func fillNoSave(acc string, v interface{}, e *LEv) { fill(acc, v, e) }
 
 // ctx is one recording context (one goroutine): its own handle numbering and event sink.
 type ctx struct {
@@ -731,21 +760,10 @@ func (c *ctx) checkStable(h *handle) {
 	eq := 1
 	n := 0
 	for _, x := range all {
-		for _, sv := range x.saved {
-			i := 0
-			for _, b := range sv.bytes {
-				if string(b) != string(sv.copies[i]) {
-					eq = 0
-				}
-				i++
-				n++
-			}
-			for _, s := range sv.strs {
-				if s != string(sv.copies[i]) {
-					eq = 0
-				}
-				i++
-				n++
+		for i := range x.saved {
+			n++
+			if !x.saved[i].stillSame() {
+				eq = 0
 			}
 		}
 	}
@@ -993,6 +1011,15 @@ func famPool(iters int, histLen int) {
 				}
 				acc := append(append([]string{}, scalarAccs...), sliceAccs...)[rng.Intn(26)]
 				t := []int{1, 2, 3, 4, -3, 7}[rng.Intn(6)]
+				// most of the time an accessor that fits the tag's wire type, so that values really flow
+				if rng.Intn(10) < 7 {
+					switch t {
+					case 1:
+						acc = []string{"UInt64s", "Int64s", "SInt64s", "Bools", "UInt64", "Int64", "Bool"}[rng.Intn(7)]
+					default:
+						acc = []string{"BytesS", "Strings", "Bytes", "String", "BytesS", "Strings"}[rng.Intn(6)]
+					}
+				}
 				if rng.Intn(4) == 0 {
 					c.access(h, acc, []int{3, []int{1, 2, 5}[rng.Intn(3)]})
 				} else {
